@@ -423,14 +423,24 @@ def run_followup(case, ops_fn=None):
                     flags[str(sid)] = False
                 rec["ops"].append(["redetect", sid, rate, cls, queue_content(sched)])
         rec["queue_before"] = queue_content(sched)
-        wp = sched.get_workplan(cur)
+        try:
+            wp = sched.get_workplan(cur)
+        except Exception as e:  # an exception of the code under test ends the simulation
+            rec["crash"] = "key_error" if isinstance(e, KeyError) else type(e).__name__
+            trace.append(rec)
+            break
         rec["plan"] = [int(x) for x in wp.site_survey_planners.keys()]
         rec["queue_after_take"] = queue_content(sched)
         rec["n_taken"] = len(rec["queue_before"]) - len(rec["queue_after_take"])
         rec["issued"] = []
         before = {sid: report_state(pl._active_survey_report) for sid, pl in wp.site_survey_planners.items()}
         prior_counts = {int(sid): sum(pl._surveys_this_year.values()) for sid, pl in wp.site_survey_planners.items()}
-        method.deploy_crews(wp, weather, None)
+        try:
+            method.deploy_crews(wp, weather, None)
+        except Exception as e:
+            rec["crash"] = "key_error" if isinstance(e, KeyError) else type(e).__name__
+            trace.append(rec)
+            break
         reports, planners = wp.get_reports()
         rec["reports"] = sorted(int(x) for x in reports.keys())
         outs = []
@@ -450,7 +460,12 @@ def run_followup(case, ops_fn=None):
             outs.append([int(sid), st, int(rep.time_surveyed) - prev, int(rep.time_surveyed),
                          int(rep.time_surveyed_current_day)])
         rec["outcomes"] = outs
-        sched.update(wp, cur, False)
+        try:
+            sched.update(wp, cur, False)
+        except Exception as e:
+            rec["crash"] = "key_error" if isinstance(e, KeyError) else type(e).__name__
+            trace.append(rec)
+            break
         # real completion counters of the planner objects (SurveyPlanner._surveys_this_year)
         rec["real_done"] = sorted([int(sid), sorted([y, n] for y, n in pl._surveys_this_year.items())]
                                   for sid, pl in planners.items())
@@ -460,7 +475,7 @@ def run_followup(case, ops_fn=None):
         # outstanding planners' reports
         rec["planners"] = sorted(
             [[int(pl.get_site().get_id()), report_state(pl._active_survey_report)]
-             for _p, _c, pl in sched._survey_queue.queue])
+             for _p, _c, pl in sched._survey_queue.queue], key=lambda x: x[0])
         rec["done"] = sorted([int(sid), sum(planners[str(sid)]._surveys_this_year.values())]
                              for sid, st, *_ in outs if st == "C")
         for sid, st, *_ in outs:
